@@ -73,7 +73,7 @@ reg('C18', 'model_checking',
 
 reg('C06', 'model_checking',
     'Explicit-state breadth-first search over all histories of <=3 (quick) / '
-    '<=4 (thorough) operations from a 50-operation alphabet (add/remove/'
+    '<=4 (thorough) operations from a 53-operation alphabet (add/remove/'
     'extract/append/extend/resize, add/remove property and constant, retag+'
     'align, set_tag, clone, ensure/copy properties, pickle...) on real '
     'ParticleArray objects (two interacting arrays, every C type, strided '
@@ -263,7 +263,7 @@ reg('C17', 'model_checking',
     'arrays x ghost tails {0,1,2} x two h patterns, plus larger blocks with '
     'arrays of different sizes; arrays carry every C type and stride-2/3 '
     'properties (created before or after the scalar ones). Histories of '
-    'reorder / update / move on one long-lived NNPS object: the index list '
+    'reorder / update / move / grow / shrink on one long-lived NNPS object: the index list '
     'must be a permutation, the multiset of whole particle records must be '
     'unchanged, Local particles must stay ahead of ghosts, and after the '
     'next update the object must answer like a freshly built one.',
